@@ -210,6 +210,14 @@ def enumerate_plate(col, pp, rows, cols, labelling, shard_filter):
     invalid([(0, 1)], 'row-out-of-range')
     invalid([(1, nc + 1)], 'col-out-of-range')
     invalid([f"{rows[0]}:nope"], 'col-label-unknown')
+    # a label means what it means on ITS axis: one that exists only on the other axis is unknown here
+    only_rows = [x for x in rows if x not in cols]
+    only_cols = [x for x in cols if x not in rows]
+    if only_rows:
+        invalid(f"{rows[0]}:{only_rows[0]}", 'row-label-used-as-column')
+        invalid([(1, 1), (rows[0], only_rows[0])], 'row-label-used-as-column-in-list')
+    if only_cols:
+        invalid(f"{only_cols[0]}:{cols[0]}", 'column-label-used-as-row')
 
 
 def check_default_labels(col, pp, n_rows, n_cols):
@@ -248,6 +256,8 @@ def run(col):
                 cols = [str(i + 1) for i in range(nc)]
                 enumerate_plate(col, pp, rows, cols, 'default', shard_filter)
                 enumerate_plate(col, pp, custom_labels(nr, 'r'), custom_labels(nc, 'c'), 'custom', shard_filter)
+                # the same label strings on both axes, at different positions
+                enumerate_plate(col, pp, ['0', '1', '10', 'A', 'x'][:nr], ['10', 'A', '1', '0', 'x'][:nc], 'shared', shard_filter)
     col.exhaustive = True
 
     def t_big():
@@ -279,7 +289,7 @@ def run(col):
         return test
     core.run_property(col, t_labels, budget(15, 120, col.tier), tag='labels')
     if col.shard == 0:
-        for n in (26, 27, 52, 53) + ((702, 703) if col.tier == 'thorough' else ()):
+        for n in (26, 27, 52, 53, 676, 677, 702, 703, 728, 729):
             with col.enumeration():
                 check_default_labels(col, pp, n, 2)
 
